@@ -17,6 +17,19 @@ CHECKS = {
              "in known_findings.json with their recorded extent in findings_extent/C05.json.",
         technique="TLA+ recogniser spec model-checked by TLC; TLC-exported automaton replayed exhaustively into the decoder",
         engine="JsonText", design="8/C05"),
+    "C18": dict(
+        level="model_checking",
+        text="JsonTransform.tla defines Compact and Indent as transducers on top of the JsonText recogniser; TLC checks on every "
+             "input up to length 5-6 over two alphabets that outputs are valid texts, both are idempotent, Compact(Indent(x)) = "
+             "Compact(x) and an invalid text yields no output; TLC exports the per-transition emission tables and the harness "
+             "applies them to every byte-class string up to length 3 (quick) / 5 (thorough) and to decorated generated texts, "
+             "comparing the bytes appended by go-json's Compact/Indent (6 prefix/indent settings, empty and pre-filled "
+             "destination) with the specification's; HTMLEscape is checked for value equivalence and absence of raw special "
+             "characters, Valid against the recogniser.",
+        note="trusted: TLC, JsonTransform.tla (compared with encoding/json's Compact/Indent on every call; a disagreement is exit 2). "
+             "Known divergences are listed in known_findings.json with their extent in findings_extent/C18.json.",
+        technique="TLA+ transducer spec model-checked by TLC; TLC-exported emission tables replayed into Compact/Indent/HTMLEscape/Valid",
+        engine="JsonTransform", design="8/C18"),
 }
 
 NOT_YET = "check not built yet in this round; planned (see DESIGN.md section 8)"
@@ -63,7 +76,9 @@ def main():
 NA = {}
 HOOK_COMMITS = []
 ENGINES = [
-    dict(name="JsonText", path="specs/JsonText.tla", serves_properties=["C05"],
+    dict(name="JsonTransform", path="specs/JsonTransform.tla", serves_properties=["C18"],
+         kind_free_text="TLA+ Compact/Indent transducers over JsonText; TLC invariants (idempotence, composition) and table export"),
+    dict(name="JsonText", path="specs/JsonText.tla", serves_properties=["C05", "C18"],
          kind_free_text="TLA+ pushdown recogniser of RFC 8259 over byte classes + declarative grammar; TLC model checking and table export"),
 ]
 
